@@ -53,7 +53,7 @@ func c03Check(env *core.Env, cc core.Case) core.Verdict {
 			cwd = filepath.Join(root, "regex-assembly")
 		}
 		if c.Kind == "generate" {
-			if err := raTree(root, &c.Prog.Files, crsToolchainYAML); err != nil {
+			if err := raTree(root, &c.Prog.Files, crsYAMLFor(c.Prog.Main)); err != nil {
 				return core.Incon("cannot write tree: %v", err)
 			}
 			logf := filepath.Join(sandbox, fmt.Sprintf("hook%02d.log", i))
